@@ -3,6 +3,7 @@ import ElvModel.C17.Model
 import ElvModel.C17.Covered
 import ElvModel.C17.DocMatch
 import ElvModel.C17.ClosureSrc
+import ElvModel.C17.MakeMap
 namespace C17
 open Go
 
@@ -169,6 +170,63 @@ def closrcLine (src printable : String) : String :=
     | .fuel => "FUEL"
   | _, _ => "bad-op"
 
+/-! ### `make-map` (after seeded change C17-makemap-unchecked-pair-length) -/
+
+mutual
+/-- prefix notation over `,`-separated tokens: `S<hex|e>`, `L<n>` followed by n values, `O<kind>/<id>` -/
+partial def parseMV : List String → Option (MV × List String)
+  | [] => none
+  | t :: rest =>
+    match t.toList with
+    | 'S' :: h => (parseHexE (String.ofList h)).map fun b => (MV.str b, rest)
+    | 'L' :: n => do
+      let n ← (String.ofList n).toNat?
+      let (xs, rest') ← parseMVs n rest
+      some (MV.list xs, rest')
+    | 'O' :: k =>
+      match (String.ofList k).splitOn "/" with
+      | [kind, id] => some (MV.other kind id, rest)
+      | _ => none
+    | _ => none
+partial def parseMVs : Nat → List String → Option (List MV × List String)
+  | 0, ts => some ([], ts)
+  | n + 1, ts => do
+    let (x, r) ← parseMV ts
+    let (xs, r') ← parseMVs n r
+    some (x :: xs, r')
+end
+
+mutual
+def MV.enc : MV → String
+  | .str b => "S" ++ hexE b
+  | .list xs => "L" ++ toString xs.length ++ MV.encs xs
+  | .other k id => "O" ++ k ++ "/" ++ id
+def MV.encs : List MV → String
+  | [] => ""
+  | x :: xs => "," ++ x.enc ++ MV.encs xs
+end
+
+def insertKV (p : String × String) : List (String × String) → List (String × String)
+  | [] => [p]
+  | q :: qs => if p.1 < q.1 then p :: q :: qs else q :: insertKV p qs
+
+/-- the map `m.Assoc(k1,v1).Assoc(k2,v2)…`: a later pair replaces an equal key; printed with sorted keys -/
+def finalMap (ps : List (MV × MV)) : List (String × String) :=
+  let kv := ps.map fun p => (p.1.enc, p.2.enc)
+  let ded := kv.foldl (fun acc p => acc.filter (fun q => q.1 != p.1) ++ [p]) []
+  ded.foldl (fun acc p => insertKV p acc) []
+
+def makemapLine (toks : String) : String :=
+  match parseMV (toks.splitOn ",") with
+  | some (.list inputs, []) =>
+    match makeMap MV.ops true inputs with
+    | .ok ps =>
+      let m := finalMap ps
+      if m.isEmpty then "OK -" else "OK " ++ String.intercalate ";" (m.map fun p => p.1 ++ "=>" ++ p.2)
+    | .exc e => "EXC " ++ e
+    | .panic _ => "PANIC"
+  | _ => "bad-op"
+
 /-- Inventory line: the status of a site in the committed baseline. -/
 def invLine (status : String) : String :=
   if status.startsWith "covered-by:" then
@@ -177,6 +235,9 @@ def invLine (status : String) : String :=
   else if status.startsWith "reviewed:" then "reviewed"
   else if status == "uncovered" then "uncovered"
   else if status == "new" then "new"
+  -- a reviewed site whose guard fingerprint is not the one of the baseline
+  else if status == "guard-changed" then "guard-changed"
+  else if status == "guard-unrecorded" then "guard-unrecorded"
   else "bad-status"
 
 /-- ops:
@@ -187,6 +248,8 @@ def invLine (status : String) : String :=
 * `docshow <0|1 code> <hex text> <from:to,…>` — `matchedBlock.Show` on arbitrary matches (overlapping ones panic on both sides)
 * `docfind <hex markdown> <c|p hex,…> <hex,…>` — `match` + `Show` from the rendered blocks on (the markdown is for the implementation side, which checks that it renders to these blocks)
 * `closrc <hex source> <printable>` — `closure[def]` / `closure[body]` of every lambda of the source, in source order
+* `makemap <arg|pipe> <tokens>` — `make-map` on a list of inputs (as one argument or through the pipe); the
+  model is the same for both
 * `inv <site key> <status>`
 * `call <name> <hex code>` / `form <kind> <hex code>` — exploration: the
   model has nothing to say about these (they are NOT correspondence ops); both
@@ -199,6 +262,7 @@ def stepLine : List String → String
   | ["docshow", code, text, ranges] => docshowLine code text ranges
   | ["docfind", _markdown, blocks, queries] => docfindLine blocks queries
   | ["closrc", src, printable] => closrcLine src printable
+  | ["makemap", _mode, toks] => makemapLine toks
   | ["inv", _key, status] => invLine status
   | ["call", _name, _code] => "explored"
   | ["form", _kind, _code] => "explored"
